@@ -88,6 +88,10 @@ type Ref12 struct {
 	ServerRandom []byte
 	client       dirKeys
 	server       dirKeys
+	// Explicit, if set, chooses the 8 explicit nonce bytes of GCM/CCM records (and seeds the CBC
+	// IV) when sealing: RFC 5288 / 6655 leave them to the sender, epoch||sequence is only one
+	// customary choice and a receiver has to use what the record carries
+	Explicit func(epoch uint16, seq uint64) []byte
 }
 
 // NewRef12 derives the record keys from the master secret and the hello randoms.
@@ -281,6 +285,9 @@ func (r *Ref12) Seal(fromClient bool, ctype byte, epoch uint16, seq uint64, cid 
 	case "gcm", "ccm", "ccm8":
 		a, _ := r.aead(k)
 		explicit := seq8(epoch, seq)
+		if r.Explicit != nil {
+			explicit = r.Explicit(epoch, seq)
+		}
 		nonce := append(append([]byte(nil), k.iv...), explicit...)
 		body = append(explicit, a.Seal(nil, nonce, inner, aad12(rec, len(inner)))...)
 	case "chacha":
@@ -304,6 +311,9 @@ func (r *Ref12) Seal(fromClient bool, ctype byte, epoch uint16, seq uint64, cid 
 		}
 		iv := bytes.Repeat([]byte{0xa5}, aes.BlockSize)
 		copy(iv, seq8(epoch, seq))
+		if r.Explicit != nil {
+			copy(iv[8:], r.Explicit(epoch, seq))
+		}
 		b, _ := aes.NewCipher(k.key)
 		ct := make([]byte, len(pt))
 		cipher.NewCBCEncrypter(b, iv).CryptBlocks(ct, pt)
